@@ -474,6 +474,56 @@ func c26Huge(rng *verifkit.Rand) int {
 	return c26MaxBody + verifkit.Pick(rng, -6, -4, 0, 1, 1, 5, 100_000, 200_000)
 }
 
+// c26HighCardPlan: high-cardinality member of the dispatch-deadline family. More
+// destinations than the dispatcher has pool workers (501..1200 datasets over 1-2
+// promptly answering hosts and 1-2 keys) each get a partial batch at one fake
+// instant that lies strictly inside a dispatcher tick interval; the clock is then
+// walked tick by tick to 1.25 x BatchTimeout + 1 ns after that instant (not a tick
+// instant), where nothing may be pending any more, and on.
+func c26HighCardPlan(rng *verifkit.Rand, caseNo int) *c26Plan {
+	p := &c26Plan{Profile: "highcard", SendTO: 30 * time.Second}
+	p.BatchTO = verifkit.Pick(rng, 100*time.Millisecond, 400*time.Millisecond, time.Second)
+	p.MaxBatch = verifkit.Pick(rng, 2, 3, 50)
+	p.Compress = rng.Bool()
+	p.Peer = rng.Chance(0.3)
+	p.StartOffset = time.Duration(rng.Intn(1_000_000_000))
+	nHosts := rng.Range(1, 2)
+	for h := 0; h < nHosts; h++ {
+		p.HostPrompt = append(p.HostPrompt, true)
+		p.RateLimit = append(p.RateLimit, nil)
+		p.Scripts = append(p.Scripts, nil) // all-202
+	}
+	n := verifkit.Pick(rng, 501, 502, 520, rng.Range(503, 800), rng.Range(800, 1200), rng.Range(1001, 1200))
+	keys := []string{"key-A", "key-B"}[:rng.Range(1, 2)]
+	for i := 0; i < n; i++ {
+		p.Dests = append(p.Dests, c26Dest{Host: i % nHosts, Key: keys[(i/nHosts)%len(keys)], Dataset: fmt.Sprintf("hc-%04d", i)})
+	}
+	for i := 0; i < n; i++ {
+		p.Events = append(p.Events, &c26Event{ID: fmt.Sprintf("h%05d-e%05d", caseNo, len(p.Events)), Dest: i, Pad: verifkit.Pick(rng, 0, 10, 200), Class: "deliverable"})
+		if p.MaxBatch > 2 && rng.Chance(0.1) {
+			p.Events = append(p.Events, &c26Event{ID: fmt.Sprintf("h%05d-e%05d", caseNo, len(p.Events)), Dest: i, Pad: 1, Class: "deliverable"})
+		}
+	}
+	verifkit.Shuffle(rng, p.Events)
+	all := make([]int, len(p.Events))
+	for i := range all {
+		all[i] = i
+	}
+	bt := int64(p.BatchTO)
+	tick := bt / 4
+	off := 1 + rng.Int63()%(tick-2) // strictly inside a tick interval, and off+1ns is no tick instant either
+	if rng.Chance(0.3) {
+		off = verifkit.Pick(rng, int64(1), tick/2, tick-2)
+	}
+	pre := int64(rng.Intn(3)) * tick // 0..2 whole ticks before the burst
+	p.Steps = []c26Step{
+		{Workers: 1, AdvNs: pre + off},
+		{Events: all, Workers: verifkit.Pick(rng, 1, 2, 4), AdvNs: bt*5/4 + 1},
+		{Workers: 1, AdvNs: verifkit.Pick(rng, int64(0), tick, bt)},
+	}
+	return p
+}
+
 func c26MakeAction(rng *verifkit.Rand, kind string) c26Action {
 	a := c26Action{Kind: kind, Msgp: rng.Chance(0.3)}
 	switch kind {
@@ -1548,6 +1598,18 @@ func c26Check(run *verifkit.Run, o *c26Outcome) {
 		Extra any      `json:"extra,omitempty"`
 	}
 	briefPlan := *p
+	if len(briefPlan.Dests) > 40 {
+		briefPlan.Dests = briefPlan.Dests[:40]
+	}
+	if len(briefPlan.Steps) > 0 {
+		steps := append([]c26Step(nil), briefPlan.Steps...)
+		for i := range steps {
+			if len(steps[i].Events) > 80 {
+				steps[i].Events = steps[i].Events[:80]
+			}
+		}
+		briefPlan.Steps = steps
+	}
 	if len(briefPlan.Events) > 80 {
 		briefPlan.Events = briefPlan.Events[:80]
 	}
@@ -1920,7 +1982,7 @@ func c26Calibrate(t *testing.T) int {
 func TestVerif_C26(t *testing.T) {
 	run := verifkit.Start(t, "C26", "transmit")
 	defer run.Finish()
-	run.Rule("one case = one scripted run of a real DirectTransmission (fake clock) against 1-3 fake API hosts: PRNG-chosen MaxBatchSize/BatchTimeout/compression/type, 1-4 destinations (host,key,dataset incl. datasets needing URL escaping) plus occasionally an unreachable one, event sizes by profile (small; medium up to 400 KB; large = groups whose body totals land on 5 MB-100KB..5 MB+100KB incl. +-1..5 bytes, single events of 1 MB-1000..1 MB+200000 incl. exactly 1 MB and 1 MB+1, occasionally one event of 5 MB-6..5.2 MB, also among small events; hang = small events with hanging answers in the palette; a hanging answer makes the client's wait time out at once by expiring the read deadline of its connection, no real timeout is used), enqueue steps from 1-4 goroutines, some racing the dispatcher tick, fake-clock advances of 0..2xBatchTimeout split at tick instants, per-host answer scripts drawn from a 0-3 kind fault palette (all-202 json/msgpack, per-event statuses, short/long list, garbage, empty, 400..504, 429/503 with Retry-After absent/0.01/1/59/59.9/60/61/3600/0/-1/HTTP-dates/garbage, hang, connection close; some hosts instead run a rate-limit window: 429/503 with Retry-After r in 1..59 s for every request from a trigger - the n-th request or the first request after Stop was called - until the fake clock reaches trigger+r, all-202 otherwise), then Stop while events are pending and senders sleep on Retry-After. Non-trivial = at least one request observed; distinct = profile x answer kinds served x {retried, near-5MB body, >1MB event, pending at Stop} x topology")
+	run.Rule("one case = one scripted run of a real DirectTransmission (fake clock) against 1-3 fake API hosts: PRNG-chosen MaxBatchSize/BatchTimeout/compression/type, 1-4 destinations (host,key,dataset incl. datasets needing URL escaping) plus occasionally an unreachable one, event sizes by profile (small; medium up to 400 KB; large = groups whose body totals land on 5 MB-100KB..5 MB+100KB incl. +-1..5 bytes, single events of 1 MB-1000..1 MB+200000 incl. exactly 1 MB and 1 MB+1, occasionally one event of 5 MB-6..5.2 MB, also among small events; hang = small events with hanging answers in the palette; a hanging answer makes the client's wait time out at once by expiring the read deadline of its connection, no real timeout is used), enqueue steps from 1-4 goroutines, some racing the dispatcher tick, fake-clock advances of 0..2xBatchTimeout split at tick instants, per-host answer scripts drawn from a 0-3 kind fault palette (all-202 json/msgpack, per-event statuses, short/long list, garbage, empty, 400..504, 429/503 with Retry-After absent/0.01/1/59/59.9/60/61/3600/0/-1/HTTP-dates/garbage, hang, connection close; some hosts instead run a rate-limit window: 429/503 with Retry-After r in 1..59 s for every request from a trigger - the n-th request or the first request after Stop was called - until the fake clock reaches trigger+r, all-202 otherwise), then Stop while events are pending and senders sleep on Retry-After. Separate high-cardinality cases: 501..1200 destinations (distinct datasets, all-202 hosts) get a partial batch at one fake instant strictly inside a dispatcher tick interval and the clock is walked to 1.25 x BatchTimeout + 1 ns after it. Non-trivial = at least one request observed; distinct = profile x answer kinds served x {retried, near-5MB body, >1MB event, pending at Stop} x topology")
 	run.Assume("1 MB = 1,000,000 and 5 MB = 5,000,000 bytes (the Honeycomb API limits the package constants encode); body size is the serialized msgpack body before compression")
 	run.Assume("clockwork.FakeClock is the transmission's only clock for batching and Retry-After sleeps; the real client send timeout (30 s) never fires; a timed-out exchange is one whose httpClient.Do returned a net.Error with Timeout()==true, produced by expiring the connection read deadline")
 	run.Assume("dispatch deadline is checked for hosts whose script never makes a sender sleep or hang (a later sub-batch of a split batch is sent only after the previous one was answered)")
@@ -1938,6 +2000,18 @@ func TestVerif_C26(t *testing.T) {
 		if i < 3 {
 			run.Sample(map[string]any{"profile": p.Profile, "max_batch": p.MaxBatch, "batch_timeout": p.BatchTO.String(), "palette": p.Palette,
 				"dests": p.Dests, "events": len(p.Events), "steps": len(p.Steps), "requests": len(o.reqs)})
+		}
+	})
+
+	run.Cases("highcard", run.N(2, 16), func(i int, rng *verifkit.Rand) {
+		p := c26HighCardPlan(rng, i)
+		started := time.Now()
+		o := c26Execute(t, p)
+		c26Check(run, o)
+		run.Count("highcard_destinations", int64(len(p.Dests)))
+		t.Logf("highcard %d dests=%d mb=%d bt=%v events=%d reqs=%d wall=%v syncLost=%q gridLost=%v", i, len(p.Dests), p.MaxBatch, p.BatchTO, len(p.Events), len(o.reqs), time.Since(started).Round(time.Millisecond), o.syncLost, o.gridLost)
+		if i == 0 {
+			run.Sample(map[string]any{"profile": p.Profile, "max_batch": p.MaxBatch, "batch_timeout": p.BatchTO.String(), "destinations": len(p.Dests), "events": len(p.Events), "steps": p.Steps[0].AdvNs, "requests": len(o.reqs)})
 		}
 	})
 }
